@@ -129,7 +129,9 @@ def check_coinbase_heightless(case):
         f.expect(raised(got), "coinbase/not-refused/script>100/no-height", repr(got)[:80])
         return cls, f
     if raised(got):
-        f.add(f"coinbase/raises-{got.kind}/no-height", got)
+        # the statement speaks of what holds "when a height is given"; a library that insists on a height (BIP34 made it
+        # mandatory) refuses this form, which is not a violation - a transaction it does return is judged below
+        cls.append("no-height/refused")
         return cls, f
     try:
         tx, end = txref.parse(got)
